@@ -188,6 +188,38 @@ pub fn placeholder_pool(e: &str, full: bool) -> Vec<Val> {
     v
 }
 
+/// mirrors ParseFn!Renderable (the trace specification re-lexes every rendering, so a divergence is detected)
+pub fn renderable(kinds: &[String]) -> bool {
+    for i in 0..kinds.len() {
+        if i + 1 < kinds.len() && ((kinds[i] == "num" && kinds[i + 1] == "num") || (kinds[i] == "sup" && kinds[i + 1] == "sup")) { return false; }
+        if matches!(kinds[i].as_str(), "f1" | "f2" | "fv" | "fa") && !(i + 1 < kinds.len() && kinds[i + 1] == "lp") { return false; }
+    }
+    true
+}
+
+/// A sequence the parser has already rejected stays rejected whatever follows (ParseFn!Viable is false):
+/// extend minimal rejected prefixes by random tokens and require Err.
+pub fn replay_reject_suffixes(out: &mut Out, v: &Vocab, e: &str, b: &Beh, pol: &Policy, rng: &mut Rng, n: usize) {
+    if b.verdict != "reject" || !b.renderable || b.numnum { return; }
+    let kinds_e: Vec<String> = v.kinds[e].clone();
+    for _ in 0..n {
+        let mut ks = b.kinds.clone();
+        let extra = 1 + rng.below(3);
+        for _ in 0..extra {
+            let k = kinds_e[rng.below(kinds_e.len())].clone();
+            let is_fn = matches!(k.as_str(), "f1" | "f2" | "fv" | "fa");
+            ks.push(k);
+            if is_fn { ks.push("lp".into()); }
+        }
+        if !renderable(&ks) { continue; }
+        let r = match render(v, e, &ks, pol) { Some(r) => r, None => continue };
+        let ctx = json!({"toks": ks, "verdict": "reject", "prefix": b.kinds});
+        let ph = default_placeholder(e);
+        let exp = reject_exp();
+        checked_call(out, e, &r.text, &ph, Some(&exp), json!({"kinds": ks, "v": "reject"}), true, &ctx);
+    }
+}
+
 pub fn claim_of(b: &Beh) -> Value { json!({"kinds": b.kinds, "v": b.verdict}) }
 
 /// Base replay of one behaviour for evaluator e: `nasg` assignments of operands/spellings.
@@ -217,4 +249,53 @@ pub fn replay_base(out: &mut Out, v: &Vocab, e: &str, b: &Beh, pols: &[Policy], 
         used.push((r, outs));
     }
     used
+}
+
+/// Direction A at character level (spec/MCLexer.tla): one behaviour = a character string with the
+/// specification's verdict, tokens (with payload) and tree.
+pub fn replay_string(out: &mut Out, e: &str, bv: &Value, phs: &[Val], idx: u64) {
+    use crate::render::Asg;
+    use crate::vocab::{concrete, FOREIGN, WHITE_SPACE};
+    let chars: Vec<String> = bv["chars"].as_array().unwrap().iter().map(|c| c.as_str().unwrap().to_string()).collect();
+    let mut text = String::new();
+    for (i, c) in chars.iter().enumerate() {
+        match c.as_str() {
+            "WS" => text.push(WHITE_SPACE[(idx as usize + i) % 25]),
+            "OTHER" => text.push(FOREIGN[(idx as usize + i) % FOREIGN.len()]),
+            _ => text.push_str(&concrete(c)),
+        }
+    }
+    let verdict = bv["v"].as_str().unwrap();
+    let toks = bv["toks"].as_array().unwrap();
+    let mut asg = Asg::default();
+    let mut kinds = Vec::new();
+    for (i, t) in toks.iter().enumerate() {
+        let p = i + 1;
+        let k = t["k"].as_str().unwrap();
+        kinds.push(k.to_string());
+        let txt: String = t["txt"].as_array().map(|a| a.iter().map(|c| c.as_str().unwrap()).collect::<Vec<_>>().concat()).unwrap_or_default();
+        match k {
+            "num" => { asg.lits.insert(p, (txt, t["im"].as_bool().unwrap_or(false))); }
+            "sup" => { asg.sups.insert(p, txt); }
+            "const" => { let f = t["fn"].as_str().unwrap_or(""); asg.consts.insert(p, if f == "E" { "E".into() } else { "PI".into() }); }
+            "f1" | "f2" | "fv" | "fa" => { asg.fns.insert(p, t["fn"].as_str().unwrap().to_string()); }
+            _ => {}
+        }
+    }
+    let has_ans = kinds.iter().any(|k| k == "ans");
+    let dflt = [default_placeholder(e)];
+    let phs: &[Val] = if has_ans { phs } else { &dflt };
+    let ctx = json!({"chars": chars, "verdict": verdict, "rule": bv["rule"], "toks": kinds});
+    for ph in phs {
+        let exp = match verdict {
+            "accept" => Some(expected(e, &T::from_json(&bv["tree"]), &asg, ph)),
+            "reject" => Some(reject_exp()),
+            _ => None,   // unspecified by the properties: the call only has to return
+        };
+        let nontrivial = chars.len() >= 2;
+        checked_call(out, e, &text, ph, exp.as_ref(), json!({"v": verdict}), nontrivial, &ctx);
+    }
+    if out.stats.samples.len() < 6 && idx % 1009 == 7 {
+        out.stats.samples.push(json!({"e": e, "chars": chars, "verdict": verdict, "input": text}));
+    }
 }
